@@ -48,9 +48,9 @@ class ConcreteOps:
     def close(self, a, b, tol=1e-9):
         a, b = self.num(a), self.num(b)
         return abs(a - b) <= 10 * tol * (1 + abs(b))
-    def near(self, a, b, tol=1e-9):
+    def near(self, a, b, tol=1e-9, scale=None):
         a, b = self.num(a), self.num(b)
-        return abs(a - b) <= 10 * tol * (1 + abs(b))
+        return abs(a - b) <= 10 * tol * (1 + (abs(b) if scale is None else abs(self.num(scale))))
     def le(self, a, b): return self.ge(b, a)
     def gt(self, a, b): return self.num(a) > self.num(b)
     def abs(self, a): return abs(a)
@@ -143,12 +143,13 @@ class SymOps:
         at, bt = self._l(a), self._l(b)
         return Claim(at >= bt, bt - at > z3.RealVal('1/1000') * (1 + _abs(bt)))
 
-    def near(self, a, b, tol=1e-9):
-        """(a-b)^2 <= tol^2*(1+b^2): a relative tolerance without absolute values, one polynomial query for nlsat (any sign of b)"""
+    def near(self, a, b, tol=1e-9, scale=None):
+        """(a-b)^2 <= tol^2*(1+s^2) with s = b, or an explicit magnitude scale (sum of the absolute additive terms: robust against cancellation): a relative tolerance without absolute values, one polynomial query for nlsat (any sign of b)"""
         at, bt = self._l(a), self._l(b)
         d = at - bt
+        st = bt if scale is None else self._l(scale)
         t2 = z3.RealVal(repr(tol)) * z3.RealVal(repr(tol))
-        return Claim(d * d <= t2 * (1 + bt * bt), d * d > 1000000 * t2 * (1 + bt * bt), nonlinear=True)
+        return Claim(d * d <= t2 * (1 + st * st), d * d > 1000000 * t2 * (1 + st * st), nonlinear=True)
 
     def close(self, a, b, tol=1e-9):
         """|a-b| <= tol*(1+b) for a reference b known to be >= 0; posed as two abs-free polynomial queries (nlsat)"""
